@@ -1332,7 +1332,7 @@ def is_kanji(data):
     data_iter = iter(data)
     for i in range(0, data_len, 2):
         code = (next(data_iter) << 8) | next(data_iter)
-        if not (0x8140 <= code <= 0x9ffc or 0xe040 <= code <= 0xebbf):
+        if not (0x8140 <= code <= 0x9ffc or 0xe040 <= code <= 0xebbf) or not 0x40 <= code & 0xff <= 0xfc:
             return False
     return True
 
